@@ -237,7 +237,10 @@ class Disk:
             try:
                 # Another cache may have deleted the directory before
                 # the file could be opened.
-                writer = open(full_path, mode, encoding=encoding)
+                newline = None if encoding is None else ''
+                writer = open(
+                    full_path, mode, encoding=encoding, newline=newline
+                )
             except OSError:
                 if count == 10:
                     # Give up after 10 tries to open the file.
@@ -274,7 +277,9 @@ class Disk:
                     return reader.read()
         elif mode == MODE_TEXT:
             full_path = op.join(self._directory, filename)
-            with open(full_path, 'r', encoding='UTF-8') as reader:
+            with open(
+                full_path, 'r', encoding='UTF-8', newline=''
+            ) as reader:
                 return reader.read()
         elif mode == MODE_PICKLE:
             if value is None:
